@@ -22,6 +22,7 @@ EXPLANATION = (
     " (i) The import / export loops carry nothing between entries; a loop that prunes os.walk's dirnames iterates the live top-down generator; archive member paths are decomposed by position, never by searching the text of another path."
     ' (k) No glob-pattern enumeration of job files (hidden files); (l) the zip exporter writes file members only (the importer writes every member as a file); (m) the directory crawler and the schema anchor use the origin in the same spelling; a prefix built as `x + sep` needs a normalised x.'
     ' One-shot iterators are not used for repeated membership tests (C16-i). (n) the state point derived from the path and the one in the state point file are compared as values (C16-n); (o) archives are unpacked outside the workspace (C16-o).'
+    ' (p) no tree copy of an export / clone keeps symbolic links as links (C16-p); `str.strip` family lint also on signac.job (Job.fn).'
 )
 UNDECIDED = ("The value-level round trip (ids, documents, file trees equal), archive member naming and formatted floats are not "
              "decided. Observed but not claimed: the schema-string converter drops literal text after the last field.")
